@@ -194,11 +194,42 @@ def run(ctx):
         bad = [src(n)[:60] for n in walk_no_nested(f.node) if isinstance(n, ast.Call) and ((call_name(n) or "") in COPYING or (isinstance(n.func, ast.Attribute) and n.func.attr in ("copy", "astype", "tolist")))]
         ctx.ob("R-API", "C18.5", f, "no copying primitive on the unstructured-view path", not bad, f"{bad}")
     uv = ctx.fn(LP + ":unstructured_view")
-    rr = [n for n in walk_no_nested(uv.node) if isinstance(n, ast.Return)]
-    ctx.ob("R-SIB", "C18.5", uv, "the view is a strided reinterpretation of the same buffer: ndarray(x.shape, dtype, x, 0, x.strides).view((float dtype, len(dtype)))", len(rr) == 1 and canon(rr[0].value) == "ndarray(x.shape, dtype, x, 0, x.strides).view((config.livepoints.default_float_dtype, len(dtype)))", f"`{src(rr[0].value) if rr else None}`")
     vd = ctx.fn(LP + ":_unstructured_view_dtype")
-    rr = [n for n in walk_no_nested(vd.node) if isinstance(n, ast.Return)]
-    ctx.ob("R-SIB", "C18.5", vd, "the view's dtype takes exactly the requested names with the offsets of the source array", len(rr) == 1 and match_expr("dtype({$$n: x.dtype.fields[$$n] for $$n in names})", rr[0].value) is not None, "")
+    from ..summ import summarise as _summ18
+
+    # the dtype of the window: exactly the requested names with the source array's formats and offsets, in either spelling
+    # of np.dtype - {name: (format, offset)} (numpy sorts the fields by offset) or names / formats / offsets lists (kept
+    # in the order given)
+    vpaths = [pa for pa in _summ18(vd.node) if pa.end == "return"]
+    sorted_form = explicit_form = False
+    if len(vpaths) == 1 and isinstance(vpaths[0].ret, ast.Call) and canon(vpaths[0].ret.func) == "dtype" and len(vpaths[0].ret.args) == 1:
+        a0 = vpaths[0].ret.args[0]
+        sorted_form = match_expr("{$$n: x.dtype.fields[$$n] for $$n in names}", a0) is not None
+        if isinstance(a0, ast.Dict) and all(isinstance(k_, ast.Constant) for k_ in a0.keys):
+            d0 = {k_.value: v_ for k_, v_ in zip(a0.keys, a0.values)}
+            explicit_form = set(d0) == {"names", "formats", "offsets"} and canon(d0["names"]) in ("names", "list(names)") and match_expr("[x.dtype.fields[$$n][0] for $$n in $N]", d0["formats"]) is not None and match_expr("[x.dtype.fields[$$n][1] for $$n in $N]", d0["offsets"]) is not None
+    ctx.ob("R-SIB", "C18.5", vd, "the view's dtype takes exactly the requested names with the offsets of the source array", sorted_form or explicit_form, f"`{src(vpaths[0].ret)[:100] if vpaths else None}`")
+    # the window itself: the caller's buffer re-read without a copy - either the records re-read from byte 0 as len(dtype)
+    # floats, or a float window of len(dtype) columns that starts at the LOWEST offset of the requested fields (the offset of
+    # the first *name* is that only while the dtype is built in the offset-sorted spelling)
+    upaths = [pa for pa in _summ18(uv.node) if pa.end == "return"]
+    ok_view, seen_v = bool(upaths), ""
+    for pa in upaths:
+        r_ = pa.ret
+        seen_v = src(r_)[:120]
+        form_a = canon(r_) in ("ndarray(x.shape, dtype, x, 0, x.strides).view((config.livepoints.default_float_dtype, len(dtype)))", "ndarray(x.shape, _unstructured_view_dtype(x, names), x, 0, x.strides).view((config.livepoints.default_float_dtype, len(_unstructured_view_dtype(x, names))))")
+        form_b = False
+        if isinstance(r_, ast.Call) and canon(r_.func) == "ndarray" and len(r_.args) == 5 and not r_.keywords:
+            shp, dt_, buf, off, strd = r_.args
+            dts = {"dtype", "_unstructured_view_dtype(x, names)"}
+            n_ok = any(canon(shp) == f"x.shape + (len({d_}),)" for d_ in dts)
+            fl = canon(dt_) in ("config.livepoints.default_float_dtype", "dtype(config.livepoints.default_float_dtype)")
+            st_ok = canon(strd) in ("x.strides + (dtype(config.livepoints.default_float_dtype).itemsize,)", "x.strides + (8,)")
+            lowest = any(match_expr(p_, off) is not None for d_ in dts for p_ in (f"min($$f[1] for $$f in {d_}.fields.values())", f"min({d_}.fields[$$n][1] for $$n in {d_}.names)", f"min([$$f[1] for $$f in {d_}.fields.values()])"))
+            first = any(canon(off) == f"{d_}.fields[{d_}.names[0]][1]" for d_ in dts)
+            form_b = n_ok and fl and st_ok and canon(buf) == "x" and ((isinstance(off, ast.Constant) and off.value == 0) or lowest or (first and sorted_form))
+        ok_view = ok_view and (form_a or form_b)
+    ctx.ob("R-SIB", "C18.5", uv, "the view is a strided reinterpretation of the same buffer: ndarray(x.shape, dtype, x, 0, x.strides).view((float dtype, len(dtype)))", ok_view, f"`{seen_v}`")
     mv = ctx.fn(tables.MODEL + ".unstructured_view")
     rr = [n for n in walk_no_nested(mv.node) if isinstance(n, ast.Return)]
     ctx.ob("R-SIB", "C18.5", mv, "Model.unstructured_view windows exactly the model's parameters (dtype computed from self.names)", len(rr) == 1 and canon(rr[0].value) == "unstructured_view(x, dtype=self._view_dtype)" and len([1 for n_, b_ in find_stmt("self._dtype = $v", prog.cls(tables.MODEL).methods["_view_dtype"].node) if match_expr("_unstructured_view_dtype(empty_structured_array(0, self.names), self.names)", b_["v"], inline=single_assignments(prog.cls(tables.MODEL).methods["_view_dtype"].node)) is not None]) == 1, "")
